@@ -722,6 +722,9 @@ class HTM(htmc.HTMC):
 
         if htmrev2 is None:
             hist2, htmrev2 = stat.histogram(htmid2 - minid, rev=True)
+        else:
+            # the C code reads these as native 64-bit integers
+            htmrev2 = np.atleast_1d(htmrev2).astype('i8')
 
         minmax_ids = np.array([minid, maxid], dtype="i8")
 
